@@ -5,6 +5,7 @@ import (
 	"math"
 	"math/big"
 	"reflect"
+	"sort"
 	"strings"
 
 	"github.com/ipfs/go-cid"
@@ -169,6 +170,33 @@ var kindSamples = map[string]ref.V{
 	"link": ref.Link(ref.CID([]byte("x"))),
 }
 
+// kindSamplesAll adds the EMPTY value of every kind that has one (and zero / false): a check
+// that looks at the length before the kind lets exactly these through.
+var kindSamplesAll = func() map[string]ref.V {
+	out := map[string]ref.V{}
+	for k, v := range kindSamples {
+		out[k] = v
+	}
+	out["empty-list"] = ref.V{K: ref.KList, L: []ref.V{}}
+	out["empty-map"] = ref.V{K: ref.KMap, M: []ref.KV{}}
+	out["empty-string"] = ref.Str("")
+	out["empty-bytes"] = ref.Bytes([]byte{})
+	out["empty-int"] = ref.Int(0)
+	out["empty-bool"] = ref.Bool(false)
+	return out
+}()
+
+// kindNamesAll: the keys of kindSamplesAll in a fixed order (the shards split the mutation list
+// by index, so every process must enumerate it in the same order).
+var kindNamesAll = func() []string {
+	var out []string
+	for k := range kindSamplesAll {
+		out = append(out, k)
+	}
+	sort.Strings(out)
+	return out
+}()
+
 func c10Mutations(typ string, base ref.V) []payMut {
 	required := map[string]bool{"iss": true, "cmd": true, "exp": true}
 	fieldKind := map[string]string{"iss": "string", "aud": "string", "sub": "string", "cmd": "string", "nonce": "bytes", "meta": "map", "exp": "int"}
@@ -191,9 +219,9 @@ func c10Mutations(typ string, base ref.V) []payMut {
 			v, _ := p.Get(f)
 			return withField(withField(p, f, nil), f+"x", &v)
 		}, true}) // an unknown field name is on the must-reject list
-		for kname, sample := range kindSamples {
-			kname, sample := kname, sample
-			if kname == fieldKind[f] {
+		for _, kname := range kindNamesAll {
+			kname, sample := kname, kindSamplesAll[kname]
+			if strings.TrimPrefix(kname, "empty-") == fieldKind[f] {
 				continue
 			}
 			kind := "retyped"
@@ -460,6 +488,9 @@ func runC10(w *mon.W) {
 					{"envelope/one-entry", ref.Map(ref.E(tag, base)), tag, true},
 					{"envelope/one-entry", ref.Map(ref.E("h", ref.Bytes(hdr))), tag, true},
 					{"envelope/three-entries", ref.Map(ref.E("h", ref.Bytes(hdr)), ref.E(tag, base), ref.E("x", ref.Int(1))), tag, true},
+					// (canonical order puts a short key before the tag, these after it)
+					{"envelope/three-entries", ref.Map(ref.E("h", ref.Bytes(hdr)), ref.E(tag, base), ref.E("x-extension-of-the-signed-payload", ref.Int(1))), tag, true},
+					{"envelope/three-entries", ref.Map(ref.E("h", ref.Bytes(hdr)), ref.E(tag, base), ref.E("zcan/ext@1.0.0-rc.1", ref.Map(ref.E("k", ref.Int(1))))), tag, true},
 					{"envelope/two-payloads", ref.Map(ref.E("h", ref.Bytes(hdr)), ref.E(tag, base), ref.E(otherTag, base)), tag, true},
 					{"envelope/two-payloads", ref.Map(ref.E(tag, base), ref.E(otherTag, base)), tag, true},
 					{"envelope/other-tag", ref.Map(ref.E("h", ref.Bytes(hdr)), ref.E(otherTag, base)), otherTag, true},
